@@ -5,10 +5,11 @@
 
    What is NOT modelled and enters as an oracle (a function argument of the model, given by the implementation itself
    in the correspondence run; the theorems state what they assume of it): the text of a Timestamp in UTC
-   (Timestamp.String()), the text of a Timespan (SerializationString()), the text %p of the address of a
+   (Timestamp.String()), the text %p of the address of a
    reflect.Type, reflect.Type.PkgPath() and reflect.Type.String(); the parsing of a bound given as text / hash. *)
 From Coq Require Import ZArith NArith Bool String List.
 From PcoreV Require Import Model.Base Model.Keys.
+From PcoreV Require Model.CtxGid.
 Import ListNotations.
 Open Scope Z_scope.
 
@@ -120,6 +121,19 @@ Definition sp_params (render : Z -> str) (t : sptype) : list value :=
 
 Definition sp_key (render : Z -> str) (t : sptype) : list N :=
   k_type (bytes_of "Timespan") (map vkey (sp_params render t)).
+
+(* timespantype.go Timespan.SerializationString(): fmt.Sprintf("%s%d.%09d", sign, u/NsecsPerSec, u%NsecsPerSec) with
+   u = |tv| as a uint64 (for MinInt64: 2^63).  %d of a uint64: CtxGid.digits (decimal, most significant digit first);
+   %09d of a number below 10^9: nine digits *)
+Fixpoint ddigits (k : nat) (n : N) : list N :=
+  match k with
+  | O => []
+  | S k' => (48 + n mod 10)%N :: ddigits k' (n / 10)%N
+  end.
+Definition pad9 (n : N) : list N := rev (ddigits 9 n).
+Definition sp_text (d : Z) : str :=
+  let u := Z.to_N (Z.abs d) in
+  (if d <? 0 then [45%N] else []) ++ CtxGid.digits (u / 1000000000)%N ++ 46%N :: pad9 (u mod 1000000000)%N.
 
 Definition sp_wf (t : sptype) : bool := in_int64 (sp_min t) && in_int64 (sp_max t).
 
